@@ -144,6 +144,41 @@ pub fn generate(repo: &PathBuf) -> Result<String, String> {
         return Err("accumulate_get_record_found: single-version branch is not `send_record_after_checking_target(senders, peer_record.record, &cfg)`".into());
     }
 
+    // driver.rs GetRecordCfg::does_target_match: three shapes
+    //   no target                -> true
+    //   is_register              -> both records deserialise as SignedRegister (else false) and
+    //                               base_register() equal && ops() <cmp> ops()
+    //   otherwise                -> target_record == record
+    let dtm = impl_fn(&drv, "GetRecordCfg", None, "does_target_match")?;
+    let d = toks(&dtm.block);
+    if !d.starts_with("{ifletSome(reftarget_record)=self.target_record{ifself.is_register{") {
+        return Err("does_target_match: expected `if let Some(ref target_record) = self.target_record { if self.is_register {`".into());
+    }
+    if !d.ends_with("}else{target_record==record}}else{true}}") {
+        return Err("does_target_match: expected the non-register branch `target_record == record` and `true` without a target".into());
+    }
+    for (what, var, arg) in [("fetched", "fetched_register", "record"), ("target", "target_register", "target_record")] {
+        let pat = format!("let{var}=matchtry_deserialize_record::<SignedRegister>({arg}){{Ok({var})=>{var},Err(err)=>{{");
+        if !d.contains(&pat) {
+            return Err(format!("does_target_match: expected the {what} record to be deserialised as SignedRegister with `return false` on failure"));
+        }
+    }
+    if d.matches("returnfalse;").count() != 2 {
+        return Err("does_target_match: expected exactly two `return false` (one per failed deserialisation)".into());
+    }
+    let base_eq = "target_register.base_register()==fetched_register.base_register()&&";
+    let Some(pos) = d.find(base_eq) else {
+        return Err("does_target_match: register branch does not compare `target_register.base_register() == fetched_register.base_register() &&`".into());
+    };
+    let tail = &d[pos + base_eq.len()..];
+    let tail = tail.split("}else{target_record==record}").next().unwrap_or("");
+    let reg_ops_cmp = match tail {
+        "target_register.ops()==fetched_register.ops()" | "fetched_register.ops()==target_register.ops()" => "eq",
+        "target_register.ops().is_subset(fetched_register.ops())" => "targetSubsetOfFetched",
+        "fetched_register.ops().is_subset(target_register.ops())" => "fetchedSubsetOfTarget",
+        other => return Err(format!("does_target_match: unknown comparison of the register ops: `{other}`")),
+    };
+
     let mut s = header("ant-protocol/src/lib.rs, ant-networking/src/{lib,driver}.rs, ant-networking/src/event/kad.rs");
     s.push_str("namespace SafeNet.Gen.Quorum\n");
     s.push_str(&format!("/-- `CLOSE_GROUP_SIZE` -/\ndef closeGroupSize : Nat := {cgs}\n"));
@@ -162,6 +197,8 @@ pub fn generate(repo: &PathBuf) -> Result<String, String> {
     s.push_str(&format!("/-- `GetRecordResultMap` keeps the responders of a version in a `HashSet<PeerId>` ({alias}) -/\ndef respondersAreSet : Bool := {}\n", lean_bool(responders_set)));
     s.push_str(&format!("/-- accumulation completes on `responded_peers >= expected_answers` (false: strict `>`) -/\ndef thresholdIsGe : Bool := {}\n", lean_bool(threshold_ge)));
     s.push_str(&format!("/-- `send_record_after_checking_target` answers `RecordDoesNotMatch` unless `cfg.does_target_match(&record)` -/\ndef targetChecked : Bool := {}\n", lean_bool(target_checked)));
+    s.push_str("/-- how `GetRecordCfg::does_target_match` compares the ops of the fetched register with the target's (`is_register`) -/\ninductive OpsCmp where\n  | eq | targetSubsetOfFetched | fetchedSubsetOfTarget\n  deriving DecidableEq, Repr\n");
+    s.push_str(&format!("/-- `does_target_match`, register branch: base registers equal && `{tail}`; a record that does not deserialise never matches; without `is_register`: `target_record == record` -/\ndef regTargetOpsCmp : OpsCmp := .{reg_ops_cmp}\n"));
     s.push_str("end SafeNet.Gen.Quorum\n");
     Ok(s)
 }
